@@ -2,9 +2,11 @@ package rules
 
 import (
 	"fmt"
+	"go/types"
 	"sort"
 	"strings"
 
+	"dirkcheck/internal/an"
 	"dirkcheck/internal/prog"
 
 	"golang.org/x/tools/go/ssa"
@@ -241,4 +243,94 @@ func (c *Ctx) HandlerMethods(rule string) []*ssa.Function {
 	sort.Slice(out, func(i, j int) bool { return out[i].String() < out[j].String() })
 	c.memo["handlers"] = out
 	return out
+}
+
+// ImmutableAfterConstruction: the slice / map configuration fields of a service implementation are written only by its
+// constructor. Services on the signing path are called from parallel scatter workers; a method that mutates shared
+// configuration (even under a mutex that is not held across the whole use) makes the outcome depend on the interleaving.
+func (c *Ctx) ImmutableAfterConstruction(rule, ifacePkg, what string) {
+	impl := c.Role(rule, ifacePkg, "Service")
+	if impl == nil {
+		return
+	}
+	st, ok := impl.Underlying().(*types.Struct)
+	if !ok {
+		return
+	}
+	cfg := map[string]bool{}
+	for i := 0; i < st.NumFields(); i++ {
+		switch st.Field(i).Type().Underlying().(type) {
+		case *types.Slice, *types.Map:
+			cfg[st.Field(i).Name()] = true
+		}
+	}
+	if len(cfg) == 0 {
+		c.R.OK(rule, impl.Obj().Pkg().Name()+"."+impl.Obj().Name(), "-", "no slice/map configuration fields")
+		return
+	}
+	isCfgField := func(v ssa.Value) (string, bool) {
+		owner, f, _ := an.FieldOf(v)
+		if owner == nil || namedOf(owner) != impl || !cfg[f] {
+			return "", false
+		}
+		return f, true
+	}
+	bad := 0
+	nfn := 0
+	for _, fn := range c.P.ModuleFuncs() {
+		if prog.PkgPathOf(fn) != impl.Obj().Pkg().Path() || fn.Blocks == nil {
+			continue
+		}
+		outer := fn
+		for outer.Parent() != nil {
+			outer = outer.Parent()
+		}
+		if outer.Signature.Recv() == nil {
+			continue // constructor and its helpers
+		}
+		nfn++
+		for _, b := range fn.Blocks {
+			for _, ins := range b.Instrs {
+				field := ""
+				switch x := ins.(type) {
+				case *ssa.Store:
+					if fa, ok := x.Addr.(*ssa.FieldAddr); ok && namedOf(fa.X.Type()) == impl && cfg[fieldNameOf(fa)] {
+						field = fieldNameOf(fa)
+					}
+					if ia, ok := x.Addr.(*ssa.IndexAddr); ok {
+						if f, ok := isCfgField(ia.X); ok {
+							field = f
+						}
+					}
+				case *ssa.MapUpdate:
+					if f, ok := isCfgField(x.Map); ok {
+						field = f
+					}
+				case *ssa.Call:
+					if bi, ok := x.Call.Value.(*ssa.Builtin); ok && (bi.Name() == "delete" || bi.Name() == "clear" || bi.Name() == "copy") && len(x.Call.Args) > 0 {
+						if f, ok := isCfgField(x.Call.Args[0]); ok {
+							field = f
+						}
+					}
+					if f := x.Call.StaticCallee(); f != nil && (f.String() == "sort.Slice" || f.String() == "sort.Strings" || strings.HasPrefix(f.String(), "slices.Sort")) && len(x.Call.Args) > 0 {
+						if fl, ok := isCfgField(an.StripConv(x.Call.Args[0])); ok {
+							field = fl
+						}
+					}
+				}
+				if field != "" {
+					bad++
+					c.R.Fail(rule, Fn(fn)+":"+field, c.Pos(ins), "the "+what+" field "+field+" is modified by a method at request time; requests are served by parallel workers that read it, so the outcome of a request depends on what other requests did meanwhile", "configuration is written by the constructor only", nil)
+				}
+			}
+		}
+	}
+	if bad == 0 {
+		var names []string
+		for f := range cfg {
+			names = append(names, f)
+		}
+		sort.Strings(names)
+		c.R.OK(rule, impl.Obj().Pkg().Name()+"."+impl.Obj().Name(), "-", fmt.Sprintf("fields %v are written by the constructor only (%d methods scanned)", names, nfn))
+	}
 }
